@@ -747,3 +747,292 @@ pub fn run_race_program(p: &RaceProgram) -> RaceOutcome {
     env::reap(store, Some(path));
     out
 }
+
+// ------------------------------------------------------------------------------------------
+// C14 (concurrent part): scans racing writers next to stable keys
+// ------------------------------------------------------------------------------------------
+
+#[derive(Clone, Debug, Serialize, Deserialize, PartialEq, Eq)]
+pub enum ChurnOp {
+    Insert(u16),
+    InsertBytes(u16),
+    Delete(u16),
+    InsertIfAbsent(u16),
+    Flush,
+}
+
+#[derive(Clone, Debug, Serialize, Deserialize, PartialEq, Eq)]
+pub struct ScanProgram {
+    pub persistent: bool,
+    pub cache: bool,
+    pub stable: u16,
+    /// writers; key index scaled over the churn keys; even churn keys are owned by writer (i % writers),
+    /// odd churn keys are shared by all writers
+    pub writers: Vec<Vec<ChurnOp>>,
+    /// scans: (start scaled, span, limit)
+    pub scanners: Vec<Vec<(u16, u16, u16)>>,
+    pub schedule: Schedule,
+}
+
+pub fn scan_program_strategy() -> BoxedStrategy<ScanProgram> {
+    let cop = prop_oneof![
+        6 => any::<u16>().prop_map(ChurnOp::Insert),
+        5 => any::<u16>().prop_map(ChurnOp::InsertBytes),
+        8 => any::<u16>().prop_map(ChurnOp::Delete),
+        2 => any::<u16>().prop_map(ChurnOp::InsertIfAbsent),
+        1 => Just(ChurnOp::Flush),
+    ];
+    (
+        any::<bool>(),
+        any::<bool>(),
+        prop_oneof![3 => 6u16..40, 1 => 260u16..330],
+        proptest::collection::vec(proptest::collection::vec(cop, 20..120), 2..4),
+        proptest::collection::vec(proptest::collection::vec((any::<u16>(), prop_oneof![1u16..8, 8u16..400], prop_oneof![Just(1u16), 2u16..10, Just(1000u16)]), 5..40), 1..3),
+        sched::schedule_strategy(),
+    )
+        .prop_map(|(persistent, cache, stable, writers, scanners, schedule)| ScanProgram { persistent, cache: persistent && cache, stable, writers, scanners, schedule })
+        .boxed()
+}
+
+fn stable_key(i: usize) -> Vec<u8> {
+    format!("s{i:04}").into_bytes()
+}
+fn churn_key(i: usize) -> Vec<u8> {
+    format!("s{i:04}x").into_bytes()
+}
+
+pub struct ScanOutcome {
+    pub failure: Option<(String, String)>,
+    pub scans: u64,
+    pub scans_overlapping_churn: u64,
+    pub sched_events: u64,
+}
+
+pub fn run_scan_program(p: &ScanProgram) -> ScanOutcome {
+    use std::sync::atomic::AtomicU32;
+    feoxdb::verif::set_thread_clock(None);
+    let cfg = Config { persistent: p.persistent, version: 3, cache: p.cache, ttl: false, dev: DevSize::Normal, max_memory: None, plain_io: true, legacy_plain_meta: false, visible_cpus: 4 };
+    let path = p.persistent.then(|| env::fresh_path("scan"));
+    let store = match seq::open_store(&cfg, path.as_deref()) {
+        Ok(s) => Arc::new(s),
+        Err(e) => return ScanOutcome { failure: Some(("open-failed".into(), format!("{e:?}"))), scans: 0, scans_overlapping_churn: 0, sched_events: 0 },
+    };
+    let n = p.stable as usize;
+    let value = |id: usize, gen: u32| -> Vec<u8> {
+        let mut v = vec![0u8; 40 + id % 90];
+        seq::stamp_fill(&mut v, id as u16, gen);
+        v
+    };
+    // stable keys carry ids 0..n, churn keys n..2n
+    for i in 0..n {
+        let _ = store.insert(&stable_key(i), &value(i, 1));
+    }
+    if p.persistent {
+        let _ = store.flush();
+    }
+    // per churn key: epoch (bumped when a creating call starts) and state 0 = surely absent
+    let epochs: Arc<Vec<AtomicU32>> = Arc::new((0..n).map(|_| AtomicU32::new(0)).collect());
+    let present: Arc<Vec<AtomicU32>> = Arc::new((0..n).map(|_| AtomicU32::new(0)).collect());
+    let activity = Arc::new(AtomicU64::new(0));
+    let ctl = Controller::new(p.schedule.clone());
+    sched::install(Some(ctl.clone()));
+    let nw = p.writers.len();
+    let barrier = Arc::new(Barrier::new(nw + p.scanners.len()));
+    let writers_done = Arc::new(AtomicU32::new(0));
+    let mut wh = Vec::new();
+    for (w, ops) in p.writers.iter().enumerate() {
+        let (store, barrier, epochs, present, activity, writers_done) = (store.clone(), barrier.clone(), epochs.clone(), present.clone(), activity.clone(), writers_done.clone());
+        let ops = ops.clone();
+        wh.push(std::thread::spawn(move || {
+            let mut gen = 1u32;
+            barrier.wait();
+            for op in &ops {
+                let _g = env::watch("churn call");
+                let pick = |x: u16| -> usize {
+                    let c = (x as usize * n) >> 16;
+                    if c % 2 == 0 && (c / 2) % nw != w {
+                        // not the owner: use the neighbouring shared (odd) key instead
+                        if c + 1 < n {
+                            c + 1
+                        } else if c >= 1 {
+                            c - 1
+                        } else {
+                            usize::MAX
+                        }
+                    } else {
+                        c
+                    }
+                };
+                activity.fetch_add(1, Ordering::SeqCst);
+                match op {
+                    ChurnOp::Insert(x) | ChurnOp::InsertBytes(x) | ChurnOp::InsertIfAbsent(x) => {
+                        let c = pick(*x);
+                        if c == usize::MAX {
+                            continue;
+                        }
+                        gen += 1;
+                        epochs[c].fetch_add(1, Ordering::SeqCst);
+                        present[c].store(1, Ordering::SeqCst);
+                        let v = value(n + c, gen);
+                        let _ = match op {
+                            ChurnOp::Insert(_) => store.insert(&churn_key(c), &v),
+                            ChurnOp::InsertBytes(_) => store.insert_bytes(&churn_key(c), bytes::Bytes::from(v)),
+                            _ => store.insert_if_absent(&churn_key(c), &v),
+                        };
+                    }
+                    ChurnOp::Delete(x) => {
+                        let c = pick(*x);
+                        if c == usize::MAX {
+                            continue;
+                        }
+                        let r = store.delete(&churn_key(c));
+                        // only the owner of an owned key may declare it surely absent
+                        if c % 2 == 0 && (c / 2) % nw == w && (r.is_ok() || matches!(r, Err(feoxdb::FeoxError::KeyNotFound))) {
+                            present[c].store(0, Ordering::SeqCst);
+                        }
+                    }
+                    ChurnOp::Flush => {
+                        let _ = store.flush();
+                    }
+                }
+                activity.fetch_add(1, Ordering::SeqCst);
+            }
+            writers_done.fetch_add(1, Ordering::SeqCst);
+        }));
+    }
+    let mut sh = Vec::new();
+    for scans in &p.scanners {
+        let (store, barrier, epochs, present, activity, writers_done) = (store.clone(), barrier.clone(), epochs.clone(), present.clone(), activity.clone(), writers_done.clone());
+        let scans = scans.clone();
+        sh.push(std::thread::spawn(move || {
+            let mut failure: Option<(String, String)> = None;
+            let mut count = 0u64;
+            let mut overlapping = 0u64;
+            barrier.wait();
+            'outer: for round in 0..30 {
+                for (s, span, limit) in &scans {
+                    let _g = env::watch("scan call");
+                    let a = (*s as usize * n) >> 16;
+                    let b = (a + *span as usize).min(n.saturating_sub(1));
+                    let start = stable_key(a);
+                    let mut end = churn_key(b);
+                    if span % 3 == 0 {
+                        end = stable_key(b);
+                    }
+                    let before: Vec<(u32, u32)> = (a..=b).map(|c| (present[c].load(Ordering::SeqCst), epochs[c].load(Ordering::SeqCst))).collect();
+                    let act0 = activity.load(Ordering::SeqCst);
+                    let res = store.range_query(&start, &end, *limit as usize);
+                    let act1 = activity.load(Ordering::SeqCst);
+                    let after: Vec<(u32, u32)> = (a..=b).map(|c| (present[c].load(Ordering::SeqCst), epochs[c].load(Ordering::SeqCst))).collect();
+                    count += 1;
+                    if act1 != act0 || act0 % 2 == 1 {
+                        overlapping += 1;
+                    }
+                    let pairs = match res {
+                        Ok(p) => p,
+                        Err(e) => {
+                            failure = Some(("scan-error".into(), format!("range_query failed: {e:?}")));
+                            break 'outer;
+                        }
+                    };
+                    let what = format!("range_query({:?}, {:?}, {limit})", String::from_utf8_lossy(&start), String::from_utf8_lossy(&end));
+                    if pairs.len() > *limit as usize {
+                        failure = Some(("scan-over-limit".into(), format!("{what} returned {} results", pairs.len())));
+                        break 'outer;
+                    }
+                    let mut prev: Option<&Vec<u8>> = None;
+                    for (k, v) in &pairs {
+                        if prev.is_some_and(|p| p >= k) {
+                            failure = Some(("scan-not-ascending".into(), format!("{what}: keys not strictly ascending (duplicate or out of order) at {:?}", String::from_utf8_lossy(k))));
+                            break 'outer;
+                        }
+                        prev = Some(k);
+                        if *k < start || *k > end {
+                            failure = Some(("scan-out-of-bounds".into(), format!("{what} returned {:?}", String::from_utf8_lossy(k))));
+                            break 'outer;
+                        }
+                        let idx: usize = std::str::from_utf8(&k[1..5]).ok().and_then(|s| s.parse().ok()).unwrap_or(usize::MAX);
+                        let churn = k.len() == 6;
+                        let id = if churn { n + idx } else { idx };
+                        match seq::stamp_check(v) {
+                            Ok((kid, _)) if kid as usize == id => {}
+                            other => {
+                                failure = Some(("scan-foreign-value".into(), format!("{what}: key {:?} came with a value that is not a genuine value of that key: {other:?}", String::from_utf8_lossy(k))));
+                                break 'outer;
+                            }
+                        }
+                        if churn && idx >= a && idx <= b {
+                            let (pb, eb) = before[idx - a];
+                            let (pa, ea) = after[idx - a];
+                            if idx % 2 == 0 && pb == 0 && pa == 0 && eb == ea {
+                                failure = Some(("scan-returned-deleted-key".into(), format!("{what} returned {:?}, whose delete had completed before the scan began and which was not re-created until it ended", String::from_utf8_lossy(k))));
+                                break 'outer;
+                            }
+                        }
+                    }
+                    // every stable key inside the returned window appears exactly once
+                    let window_end: Vec<u8> = if pairs.len() < *limit as usize { end.clone() } else { pairs.last().map(|(k, _)| k.clone()).unwrap_or_default() };
+                    if !pairs.is_empty() || pairs.len() < *limit as usize {
+                        for i in a..=b {
+                            let sk = stable_key(i);
+                            if sk >= start && sk <= window_end && sk <= end {
+                                let hits = pairs.iter().filter(|(k, _)| *k == sk).count();
+                                if hits != 1 {
+                                    failure = Some(("scan-missed-stable-key".into(), format!("{what}: stable key {:?} (present and unmodified for the whole query, inside the returned window ending at {:?}) appears {hits} times in {} results", String::from_utf8_lossy(&sk), String::from_utf8_lossy(&window_end), pairs.len())));
+                                    break 'outer;
+                                }
+                            }
+                        }
+                    }
+                }
+                if writers_done.load(Ordering::SeqCst) as usize >= nw && round >= 1 {
+                    break;
+                }
+            }
+            (failure, count, overlapping)
+        }));
+    }
+    for h in wh {
+        let _ = h.join();
+    }
+    let mut failure = None;
+    let mut scans = 0;
+    let mut overlapping = 0;
+    for h in sh {
+        if let Ok((f, c, o)) = h.join() {
+            scans += c;
+            overlapping += o;
+            if failure.is_none() {
+                failure = f;
+            }
+        } else if failure.is_none() {
+            failure = Some(("scanner-panicked".into(), "a scanning thread panicked inside the store".into()));
+        }
+    }
+    sched::install(None);
+    // quiescence: ordered and hashed indexes agree
+    if failure.is_none() {
+        let full = store.range_query(b"", &[0xff; 16], usize::MAX).unwrap_or_default();
+        let snap = store.verif_snapshot();
+        let mut by_get = Vec::new();
+        for i in 0..n {
+            for k in [stable_key(i), churn_key(i)] {
+                if store.get(&k).is_ok() {
+                    by_get.push(k);
+                }
+            }
+        }
+        by_get.sort();
+        let range_keys: Vec<Vec<u8>> = full.iter().map(|(k, _)| k.clone()).collect();
+        if range_keys != by_get {
+            let phantom: Vec<String> = range_keys.iter().filter(|k| !by_get.contains(k)).map(|k| String::from_utf8_lossy(k).into_owned()).collect();
+            let missing: Vec<String> = by_get.iter().filter(|k| !range_keys.contains(k)).map(|k| String::from_utf8_lossy(k).into_owned()).collect();
+            failure = Some(("indexes-disagree-at-quiescence".into(), format!("after all threads finished the full range query and get() disagree: keys only in the range query {phantom:?}, keys only readable by get {missing:?}")));
+        } else if store.len() != by_get.len() || snap.tree_keys.len() != snap.records.len() {
+            failure = Some(("len-disagrees-at-quiescence".into(), format!("len()={} but {} keys are readable; ordered index holds {} keys, hash index {}", store.len(), by_get.len(), snap.tree_keys.len(), snap.records.len())));
+        }
+    }
+    let out = ScanOutcome { failure, scans, scans_overlapping_churn: overlapping, sched_events: ctl.events() };
+    env::reap(store, path);
+    out
+}
